@@ -190,8 +190,7 @@ def run_kani(unit_name, repo='/repo', tier='quick', jobs=6, timeout=1500, only=N
     if only:
         hs = [h for h in hs if h['name'] in only]
     if not hs:
-        out['status'] = 'trouble'
-        out['trouble'].append('no harness selected')
+        out['note'] = 'no harness of this unit is selected for this property at this tier'
         return out
     try:
         root, crate, info = prepare_scratch(unit, repo)
